@@ -19,7 +19,10 @@ BoundPoolDef == << <<<<>>, <<r(1, 1), r(1, 1)>>>>,
                    <<<<r(1, 2), r(0, 1)>>, <<>>>>,
                    <<<<>>, <<r(1, 1), r(1, 1), r(1, 1)>>>>,
                    <<<<r(1, 4), r(0, 1), r(1, 4)>>, <<r(2, 1), r(1, 1), r(2, 1)>>>>,
-                   <<<<>>, <<>>>> >>
+                   <<<<>>, <<>>>>,
+                   (* partial updates that cross the opposite bound registered before (7: lb only, 8: ub only) *)
+                   <<<<r(3, 2), r(3, 2)>>, <<>>>>,
+                   <<<<>>, <<r(3, 1), r(3, 1)>>>> >>
 KPoolDef == << [shape |-> "1", K |-> RDiag(<<r(1, 2), r(1, 2)>>)],
                [shape |-> "d", K |-> RDiag(<<r(1, 1), r(1, 2)>>)],
                [shape |-> "dd", K |-> <<<<r(1, 1), r(0, 1)>>, <<r(1, 2), r(1, 1)>>>>] >>
